@@ -1,7 +1,7 @@
 #!/usr/bin/env python3
 """Confirm a seeded breaking change produced by an independent sub-agent and record which checks catch it.
 
-usage: tools/seeded.py confirm <ID> [--checks C01,C09,...]     (worktree /tmp/wt-<ID> with seeded_out/{patch.diff,demo.py,meta.json})
+usage: tools/seeded.py confirm <ID> [--checks C01,C09,...] [--wt <worktree>] [--tag <record name>]     (worktree /tmp/wt-<ID> with seeded_out/{patch.diff,demo.py,meta.json})
 
 Steps (all in the scratch worktree, never in /repo):
   1. the worktree diff is reset to exactly seeded_out/patch.diff
@@ -24,8 +24,8 @@ def sh(cmd, **kw):
     return subprocess.run(cmd, shell=isinstance(cmd, str), capture_output=True, text=True, **kw)
 
 
-def confirm(sid, checks, tag=None):
-    wt = f"/tmp/wt-{sid}"
+def confirm(sid, checks, tag=None, wt=None):
+    wt = wt or f"/tmp/wt-{sid}"
     out = os.path.join(wt, "seeded_out")
     patch = os.path.join(out, "patch.diff")
     name = tag or sid
@@ -102,7 +102,8 @@ def main(argv):
         checks = argv[argv.index("--checks") + 1].split(",")
     if "--tag" in argv:
         tag = argv[argv.index("--tag") + 1]
-    rec = confirm(sid, checks, tag)
+    wt = argv[argv.index("--wt") + 1] if "--wt" in argv else None
+    rec = confirm(sid, checks, tag, wt)
     print(json.dumps(rec, indent=1))
     return 0 if rec.get("confirmed") else 1
 
